@@ -153,7 +153,7 @@ class Ref:
         ll = 0.0
         for m, e in grouped:
             pe = self.pevidence(theta, e, wts)
-            if pe > 0:
+            if pe >= F(1, 10 ** 12):        # SemiringProbability.is_zero: |P(e)| < 1e-12 -> "Ignoring example"
                 ll += m * math.log(pe)
         return ll
 
@@ -536,17 +536,33 @@ def mle_expected(clauses, examples):
     return exp
 
 
-def classify(prob, symptom):
+K_LL_FIRST = "normalize-first-iteration-ad-initial-mass-below-available-ll-decreases"
+K_DROPPED = "ad-none-outcome-mass-removed-example-dropped"
+
+
+def initial_mass_below_available(prob):
+    """Some AD that _normalize_weights touches (>= 2 tunable heads) starts with less than its available mass."""
+    th = prob["theta0"]
+    return any(len(idx) >= 2 and sum((th[i] for i in idx), F(0)) < av for av, idx, _, _ in ad_groups(prob["clauses"]))
+
+
+def classify(prob, symptom, transitions=()):
+    """Narrow known-finding classes: input features + symptom (+ for the two first-iteration classes: the
+    symptom shows between iteration 1 and iteration 2 and nowhere else)."""
     f = features(prob["clauses"])
     if not prob["normalize"] and "ad" in f and symptom in ("mle", "ll-decrease"):
         return "nonormalize-ad-parent-count-multiplied"
     if "single_tunable_with_fixed" in f and symptom in ("ad-sum", "mle", "ll-decrease", "range"):
         return "ad-single-tunable-head-with-fixed-head-not-capped"
+    if prob["normalize"] and symptom in ("ll-decrease", "example-dropped") and set(transitions) == {1} \
+            and initial_mass_below_available(prob):
+        return K_LL_FIRST if symptom == "ll-decrease" else K_DROPPED
     return None
 
 
 def judge(ctx, prob, out, ref_obj, grouped):
-    """Returns the list of (symptom, message) for the natural run."""
+    """Returns the list of (symptom, message, transition) for the natural run; transition t means "between the
+    E-step of iteration t and the E-step of iteration t+1" (None where that makes no sense)."""
     bad = []
     clauses = prob["clauses"]
     trace = out["trace"]
@@ -555,28 +571,34 @@ def judge(ctx, prob, out, ref_obj, grouped):
         w = c["weights"]
         for i, x in enumerate(w):
             if not (-TOL <= x <= 1 + TOL) or x != x:
-                bad.append(("range", "parameter %d = %r after iteration %d" % (i, x, t + 1)))
+                bad.append(("range", "parameter %d = %r after iteration %d" % (i, x, t + 1), None))
         for av, idx, _, fixed in groups:
             s = sum(w[i] for i in idx) + float(fixed)
             if s > 1 + TOL:
-                bad.append(("ad-sum", "AD heads %r sum to %r (fixed part %s) after iteration %d" % (idx, s, fixed, t + 1)))
+                bad.append(("ad-sum", "AD heads %r sum to %r (fixed part %s) after iteration %d" % (idx, s, fixed, t + 1), None))
     lls = [c["ll"] for c in trace]
     for t in range(1, len(lls)):
         if lls[t] < lls[t - 1] - TOL:
-            bad.append(("ll-decrease", "reported log-likelihood falls from %r to %r at iteration %d" % (lls[t - 1], lls[t], t + 1)))
+            bad.append(("ll-decrease", "reported log-likelihood falls from %r to %r at iteration %d" % (lls[t - 1], lls[t], t + 1), t))
+    # an example that had positive probability is silently ignored later on ("Ignoring example i/n")
+    used = [sum(m for m, _, _ in c["results"]) for c in trace]
+    for t in range(1, len(used)):
+        if used[t] < used[t - 1]:
+            bad.append(("example-dropped", "%d example(s) evaluated at iteration %d are ignored (probability 0) at iteration %d; "
+                        "reported log-likelihood %r -> %r" % (used[t - 1] - used[t], t, t + 1, lls[t - 1], lls[t]), t))
     # the reported log-likelihood is the log-likelihood of the (pre-processed) data under the current parameters
     thetas = [prob["theta0"]] + [[F(x) for x in c["weights"]] for c in trace[:-1]]
     for t, th in enumerate(thetas):
         if all(0 <= x <= 1 for x in th):
             want = ref_obj.loglik(th, grouped)
             if abs(want - lls[t]) > 1e-7 * max(1.0, abs(want)):
-                bad.append(("ll-value", "reported log-likelihood %r at iteration %d, reference semantics gives %r" % (lls[t], t + 1, want)))
+                bad.append(("ll-value", "reported log-likelihood %r at iteration %d, reference semantics gives %r" % (lls[t], t + 1, want), None))
     if prob["mode"] == "complete":
         exp = mle_expected(clauses, prob["examples"])
         w = trace[0]["weights"]
         for i, e in enumerate(exp):
             if e is not None and abs(float(e) - w[i]) > TOL:
-                bad.append(("mle", "fully observed data: parameter %d is %r after one iteration, relative frequency is %s" % (i, w[i], e)))
+                bad.append(("mle", "fully observed data: parameter %d is %r after one iteration, relative frequency is %s" % (i, w[i], e), None))
     return bad
 
 
@@ -588,7 +610,75 @@ def probe_problems():
     nonorm = {"clauses": [([(0, "tun", 0), (1, "tun", 1)], [])], "theta0": [F(1, 2), F(1, 2)], "ref": [F(3, 4), F(1, 4)],
               "examples": [[(0, True), (1, False)]] * 3 + [[(0, False), (1, True)]], "mode": "complete",
               "normalize": False, "tag": "probe-nonormalize"}
-    return [single, nonorm]
+    # t(0.3)::b; t(0.3)::c. 0.9::f1. 0.1::f2. s :- \+b,\+c,f1. s :- b,f2.   evidence: s
+    # (normalisation removes the "no head" mass 0.4 of the AD: reported LL ln 0.39 -> ln 0.1)
+    nohead_ll = {"clauses": [([(0, "tun", 0), (1, "tun", 1)], []), ([(2, "fix", F(9, 10))], []), ([(3, "fix", F(1, 10))], []),
+                             ([(4, "det", None)], [(0, False), (1, False), (2, True)]),
+                             ([(4, "det", None)], [(0, True), (3, True)])],
+                 "theta0": [F(3, 10), F(3, 10)], "ref": None, "examples": [[(4, True)]], "mode": "partial",
+                 "normalize": True, "tag": "probe-nohead-ll", "n_single": 1}
+    # t(0.3)::b; t(0.3)::c.  interpretations {b} and {~b,~c}: after one normalised step P({~b,~c}) = 0, example ignored
+    nohead_drop = {"clauses": [([(0, "tun", 0), (1, "tun", 1)], [])], "theta0": [F(3, 10), F(3, 10)], "ref": None,
+                   "examples": [[(0, True)], [(0, False), (1, False)]], "mode": "partial",
+                   "normalize": True, "tag": "probe-nohead-dropped", "n_single": 1}
+    return [single, nonorm, nohead_ll, nohead_drop]
+
+
+# ------------------------------------------------------------------ family: evidence that depends on the "no head" outcome
+def gen_nohead_problem(rng, mode, nex):
+    r"""A bodyless AD of 2-3 tunable heads (optionally one constant head) whose initial values sum to LESS than the
+    available mass, constant facts, optionally a tunable fact, and an atom s with
+        s :- \+h_0, ..., \+h_k [, \+x], g1.        (true only when no head of the AD is selected)
+        s :- h_j, g2.
+    Data are sampled from a reference vector that also leaves mass to "no head"; observed completely, or
+    partially (s always, the AD heads never, the other atoms at random)."""
+    k = rng.choice([2, 2, 3])
+    fixed20 = rng.choice([0, 0, 0, 4, 6])
+    avail20 = 20 - fixed20
+    init = split_mass(rng, rng.randrange(k, avail20), k, False)       # strictly below the available mass
+    rf = split_mass(rng, rng.randrange(k, avail20), k, False)
+    heads = [(i, "tun", i) for i in range(k)]
+    natom = k
+    if fixed20:
+        heads.insert(rng.randrange(k + 1), (natom, "fix", F(fixed20, 20)))
+        natom += 1
+    clauses = [(heads, [])]
+    theta0, ref = list(init), list(rf)
+    guards = []
+    # half of the programs make the "no head" explanation of s likely and the other one unlikely
+    skew = rng.random() < 0.5
+    for gi in range(2):
+        if not skew and rng.random() < 0.3:
+            clauses.append(([(natom, "tun", len(theta0))], []))
+            theta0.append(F(rng.randrange(1, 10), 10))
+            ref.append(F(rng.randrange(1, 10), 10))
+        elif skew:
+            clauses.append(([(natom, "fix", F(rng.choice([8, 9] if gi == 0 else [1, 2]), 10))], []))
+        else:
+            clauses.append(([(natom, "fix", F(rng.randrange(1, 10), 10))], []))
+        guards.append(natom)
+        natom += 1
+    s = natom
+    none_body = sorted([(h[0], False) for h in heads] + [(guards[0], True)])
+    j = rng.randrange(k)
+    clauses.append(([(s, "det", None)], none_body))
+    clauses.append(([(s, "det", None)], sorted([(j, True), (guards[1], True)])))
+    # atoms must be numbered so that heads of one clause are new atoms in order: renumber heads 0..  (constant head may sit in between)
+    order = [h[0] for h in heads] + guards + [s]
+    amap = dict((a, i) for i, a in enumerate(order))
+    clauses = [([(amap[a], kd, v) for a, kd, v in hs], sorted((amap[a], sg) for a, sg in b)) for hs, b in clauses]
+    R = Ref(clauses)
+    full = list(ref)
+    examples = []
+    tun_heads = set(amap[h[0]] for h in heads if h[1] == "tun")
+    for _ in range(nex):
+        vals = R.sample(rng, full)
+        if mode == "complete":
+            atoms = list(range(R.natoms))
+        else:
+            atoms = [a for a in range(R.natoms) if a == amap[s] or (a not in tun_heads and rng.random() < 0.5)]
+        examples.append([(a, vals[a]) for a in atoms])
+    return {"clauses": clauses, "theta0": theta0, "ref": ref, "examples": examples, "mode": mode, "family": "nohead"}
 
 
 # ------------------------------------------------------------------ main
@@ -606,7 +696,7 @@ def shrink_examples(prob, symptom):
         ok = False
         if not o2["err"]:
             grouped = process_examples(p2["clauses"], cand, p2.get("infer", True))
-            ok = any(s == symptom for s, _ in judge(None, p2, o2, Ref(p2["clauses"]), grouped))
+            ok = any(b[0] == symptom for b in judge(None, p2, o2, Ref(p2["clauses"]), grouped))
         if ok:
             exs = cand
         else:
@@ -632,6 +722,9 @@ def run(ctx):
                        "ADs with body, negated body literals), explicit initial values in 1/10 or 1/20 steps; data = 8-24 worlds "
                        "sampled from a reference parameter vector, observed completely / partially / mixed; a case is "
                        "non-trivial when it has >= 2 parameters, >= 2 distinct examples and some parameter moves by > 1e-3; "
+                       "+ family `nohead`: a bodyless tunable AD starting BELOW its available mass, constant/tunable guard facts and "
+                       "s :- \\+all heads, g1.  s :- h_j, g2., data sampled from a reference that leaves mass to 'no head', observed "
+                       "completely or through s and the guards only; + 4 fixed probes (one per known defect class); "
                        "distinct = distinct (program, data, options)")
     ctx.assumptions += [
         "hand-written Gallina model corresponds to lfi.py only as far as the sampled single-iteration comparisons show",
@@ -665,9 +758,23 @@ def run(ctx):
         p["normalize"] = not (k % 9 == 4)
         p["tag"] = "gen%d" % k
         probs.append(p)
+    # family: ADs starting below their available mass, evidence depending on the "no head" outcome (after the
+    # main stream so that the main stream of a seed is unchanged)
+    for k in range(ctx.n(6, 60) if nprob else 0):
+        p = gen_nohead_problem(ctx.rng, ["partial", "complete"][k % 2], ctx.rng.choice([6, 10, 16]))
+        p["normalize"] = True
+        p["tag"] = "nohead%d" % k
+        # single iterations only from the initial point and from two more points below the available mass:
+        # later points of the run sit on the boundary (no-head mass 0 up to float noise)
+        p["n_single"] = 1
+        av20 = [int(av * 20) for av, idx, _, _ in ad_groups(p["clauses"]) if len(idx) >= 2][0]
+        nad = len(ad_groups(p["clauses"])[0][1])
+        p["extra_starts"] = [split_mass(ctx.rng, ctx.rng.randrange(nad, av20), nad, False)
+                             + [F(ctx.rng.randrange(1, 10), 10) for _ in p["theta0"][nad:]] for _ in range(ctx.n(1, 2))]
+        probs.append(p)
     for p in probs:
         p["n_iter"] = n_iter
-        p["n_single"] = ctx.n(3, 5)
+        p.setdefault("n_single", ctx.n(3, 5))
     ctx.log("running LFI on %d problems" % len(probs))
     outs = pl.pmap(run_problem, probs, jobs=ctx.n(8, 14), chunksize=1)
     ctx.log("LFI runs done")
@@ -679,6 +786,10 @@ def run(ctx):
         ctx.count("normalize:" + str(p["normalize"]))
         for f in feats:
             ctx.count("feature:" + f)
+        if p.get("family"):
+            ctx.count("family:" + p["family"])
+        if initial_mass_below_available(p):
+            ctx.count("feature:ad_initial_mass_below_available")
         ctx.count("params", n_params(p["clauses"]))
         if out["err"] and out["err"].startswith("Timeout"):
             ctx.count("impl-timeout (skipped, machine load)")
@@ -710,11 +821,12 @@ def run(ctx):
         # ---- property-level judge on the natural run
         bad = judge(ctx, p, out, R, grouped)
         seen = set()
-        for symptom, msg in bad:
+        for symptom, msg, _t in bad:
             if symptom in seen:
                 continue
             seen.add(symptom)
-            klass = classify(p, symptom)
+            klass = classify(p, symptom, [b[2] for b in bad if b[0] == symptom])
+            ctx.count("judge:" + symptom)
             small = p
             if klass is None and ctx.tier == "thorough":
                 small = shrink_examples(p, symptom)
